@@ -34,6 +34,7 @@ type variant struct {
 	capacity    int
 	auth        gmtls.ClientAuthType // initial ClientAuth of both servers
 	ops         []int                // reduced operation alphabet (nil = all)
+	related     int                  // 0: two Configs built independently; 1: S1 = S0.Clone(); 2: S1 hands out S0.Clone() through GetConfigForClient
 }
 
 func keyBytes(id int) (k [32]byte) {
@@ -196,10 +197,11 @@ func (m *model) after(si int, name string, resumed bool, suite uint16) {
 // ---- the real system ------------------------------------------------------------------------------
 
 type world struct {
-	v   variant
-	srv [2]*gmtls.Config
-	cli *gmtls.Config
-	seq byte
+	v     variant
+	srv   [2]*gmtls.Config
+	cli   *gmtls.Config
+	seq   byte
+	inner *gmtls.Config // related == 2: the Config that S1's GetConfigForClient hands out
 }
 
 func newWorld(v variant) (*world, *model) {
@@ -227,6 +229,15 @@ func newWorld(v variant) (*world, *model) {
 		cfg.SetSessionTicketKeys([][32]byte{keyBytes(id)})
 		m.srv[i].ring = []int{id}
 		w.srv[i] = cfg
+	}
+	switch v.related {
+	case 1:
+		// a configuration derived from another one is a configuration of its own from then on
+		w.srv[1] = w.srv[0].Clone()
+	case 2:
+		inner := w.srv[0].Clone()
+		w.srv[1] = &gmtls.Config{Time: tlsk.FixedTime, Rand: wire.NewRand(11), GMSupport: inner.GMSupport, GetConfigForClient: func(*gmtls.ClientHelloInfo) (*gmtls.Config, error) { return inner, nil }}
+		w.inner = inner
 	}
 	w.cli = &gmtls.Config{Time: tlsk.FixedTime, Rand: wire.NewRand(20), ClientSessionCache: gmtls.NewLRUClientSessionCache(v.capacity)}
 	if v.gm {
@@ -283,7 +294,11 @@ func apply(w *world, m *model, op int) (o *tlsk.Outcome, verdict int, why string
 		for _, k := range m.srv[si].ring {
 			ks = append(ks, keyBytes(k))
 		}
-		w.srv[si].SetSessionTicketKeys(ks)
+		if si == 1 && w.inner != nil {
+			w.inner.SetSessionTicketKeys(ks)
+		} else {
+			w.srv[si].SetSessionTicketKeys(ks)
+		}
 	case op == 7:
 		if m.v.gm {
 			w.srv[0].CipherSuites = []uint16{gcm}
@@ -632,22 +647,25 @@ func ticketFaultUnit(v variant) harness.Unit {
 }
 
 var variants = []variant{
-	{"GMSSL/explicit-suites/shared-key/cap2", true, true, true, 2, 0, nil},
-	{"GMSSL/explicit-suites/separate-keys/cap1", true, true, false, 1, 0, nil},
-	{"GMSSL/default-suites/shared-key/cap2", true, false, true, 2, 0, nil},
-	{"TLS1.2/shared-key/cap2", false, false, true, 2, 0, nil},
-	{"TLS1.2/separate-keys/cap1", false, false, false, 1, 0, nil},
-	{"GMSSL/explicit-suites/shared-key/cap3", true, true, true, 3, 0, nil},
+	{"GMSSL/explicit-suites/shared-key/cap2", true, true, true, 2, 0, nil, 0},
+	{"GMSSL/explicit-suites/separate-keys/cap1", true, true, false, 1, 0, nil, 0},
+	{"GMSSL/default-suites/shared-key/cap2", true, false, true, 2, 0, nil, 0},
+	{"TLS1.2/shared-key/cap2", false, false, true, 2, 0, nil, 0},
+	{"TLS1.2/separate-keys/cap1", false, false, false, 1, 0, nil, 0},
+	{"GMSSL/explicit-suites/shared-key/cap3", true, true, true, 3, 0, nil, 0},
+	{"GMSSL/explicit-suites/S1=S0.Clone()/cap2", true, true, true, 2, 0, nil, 1},
+	{"TLS1.2/S1=S0.Clone()/cap2", false, false, true, 2, 0, nil, 1},
+	{"TLS1.2/S1=GetConfigForClient->S0.Clone()/cap2", false, false, true, 2, 0, nil, 2},
 }
 
 // focused variants: a reduced alphabet (connections and key rotations only) explored deeper, with
 // servers that request / require client certificates from the start
 var rotationOps = []int{0, 2, 4, 5, 6}
 var focused = []variant{
-	{"GMSSL/rotation-focus/ClientAuth=Request", true, true, true, 2, gmtls.RequestClientCert, rotationOps},
-	{"GMSSL/rotation-focus/ClientAuth=VerifyIfGiven", true, true, true, 2, gmtls.VerifyClientCertIfGiven, rotationOps},
-	{"TLS1.2/rotation-focus/ClientAuth=Request", false, false, true, 2, gmtls.RequestClientCert, rotationOps},
-	{"TLS1.2/rotation-focus/ClientAuth=RequireAny", false, false, false, 1, gmtls.RequireAnyClientCert, rotationOps},
+	{"GMSSL/rotation-focus/ClientAuth=Request", true, true, true, 2, gmtls.RequestClientCert, rotationOps, 0},
+	{"GMSSL/rotation-focus/ClientAuth=VerifyIfGiven", true, true, true, 2, gmtls.VerifyClientCertIfGiven, rotationOps, 0},
+	{"TLS1.2/rotation-focus/ClientAuth=Request", false, false, true, 2, gmtls.RequestClientCert, rotationOps, 0},
+	{"TLS1.2/rotation-focus/ClientAuth=RequireAny", false, false, false, 1, gmtls.RequireAnyClientCert, rotationOps, 0},
 }
 
 // Prop registers C16.
